@@ -9,8 +9,10 @@ LEVEL = "other"
 EXPLANATION = ("Key/geometry arithmetic of the storage layer (normalize_key, select_by_mask, shape helpers) is put "
                "under sidecar contracts; VCs are generated from the ast of the real functions in the working tree and "
                "discharged by z3/cvc5 for all inputs; the same contracts are evaluated on the real functions over a "
-               "small scope (bounded). Class-level behaviour of the backends is checked bounded against a reference "
-               "masked numpy array.")
+               "small scope (bounded). Class-level behaviour of the backends (file_array, dict, shared_memory_dict) "
+               "is checked bounded against a reference masked numpy array (specs/storage_ref.py): every single dump "
+               "key followed by every read key on tiny shapes, and random operation sequences over all "
+               "external/internal interleavings.")
 RULE = ("proof rung: one obligation per (path, contract clause); bounded rung: contract evaluated on the real function "
         "for all small inputs of the parameter sorts (distinct = distinct argument tuples for which `requires` holds)")
 LEVEL_TEXT = ("Deductive: contracts on the real key/geometry functions of the storage layer, VCs from their ast, discharged "
@@ -60,5 +62,193 @@ def proof_items():
     ]
 
 
+# ---- class level: every backend against the reference masked array (specs/storage_ref.py) ---------------------------
+BACKENDS = ("file_array", "dict", "shared_memory_dict")
+INT_KEYS = (-4, -3, -2, -1, 0, 1, 2, 3)
+SLICES = (slice(None), slice(0, 2), slice(1, None), slice(None, None, -1), slice(0, 3, 2), slice(-1, None), slice(2, 1))
+
+
+def _configs():
+    """(shape, internal_shape, shape_mask) for every full rank <= 3 and every external/internal interleaving."""
+    import itertools
+    out = []
+    for rank in range(1, 4):
+        for mask in itertools.product((True, False), repeat=rank):
+            if not any(mask):
+                continue  # at least one external axis (an array without external axes has no elements to dump)
+            out.append(mask)
+    return out
+
+
+def _value(n, internal_shape, as_list=False):
+    import numpy as np
+    if internal_shape:
+        size = 1
+        for d in internal_shape:
+            size *= d
+        arr = (np.arange(size) + 100 * n).reshape(internal_shape)
+        return arr.tolist() if as_list else arr
+    return [f"v{n}", n, ("t", n), None, {"k": n}][n % 5] if n % 7 else f"v{n}"
+
+
+def _rand_key(rng, sizes, wrong_rank_p=0.08, slice_p=0.3):
+    n = len(sizes)
+    if rng.random() < wrong_rank_p:
+        n = rng.choice([x for x in (n - 1, n + 1) if x >= 0])
+        sizes = (list(sizes) + [2])[:n]
+    key = []
+    for sz in sizes:
+        if rng.random() < slice_p:
+            key.append(rng.choice(SLICES))
+        else:
+            # mostly in range (incl. negative), sometimes just outside
+            key.append(rng.choice([k for k in INT_KEYS if -sz <= k < sz] * 4 + [sz, -sz - 1]))
+    return tuple(key)
+
+
+def _cases_class(tier, rng):
+    import itertools
+    from specs.storage_ref import full_shape
+    # 1. tiny shapes, every single dump key (ints incl. out of range, slices, wrong rank) followed by every read key
+    tiny = [((2,), (), (True,)), ((2, 2), (), (True, True)), ((2,), (2,), (True, False)), ((2,), (2,), (False, True))]
+    dom = (-3, -2, -1, 0, 1, 2, slice(None), slice(0, 1), slice(None, None, -1))
+    for shape, internal, mask in tiny:
+        fs = full_shape(shape, internal, mask)
+        dkeys = [k for r in (len(shape) - 1, len(shape), len(shape) + 1) if r >= 0
+                 for k in itertools.product(dom, repeat=r)]
+        gkeys = list(itertools.product(dom, repeat=len(fs)))
+        if tier == "quick":
+            dkeys = rng.sample(dkeys, min(len(dkeys), 30))
+        for q, dk in enumerate(dkeys):
+            gk = gkeys if len(gkeys) <= 81 else rng.sample(gkeys, 81)
+            ops = [("dump", (0,) * len(shape), 1), ("dump", dk, 2)] + [("get", k) for k in gk]
+            yield {"backend": BACKENDS[q % 2], "shape": shape, "internal": internal, "mask": mask, "ops": ops}
+    # 2. random operation sequences over every interleaving
+    n = 260 if tier == "quick" else 4000
+    L = 8 if tier == "quick" else 14
+    masks = _configs()
+    for q in range(n):
+        mask = masks[q % len(masks)]
+        shape = tuple(rng.randint(1, 3) for m in mask if m)
+        internal = tuple(rng.randint(1, 3) for m in mask if not m)
+        fs = full_shape(shape, internal, mask)
+        size = 1
+        for d in shape:
+            size *= d
+        ops = []
+        for j in range(rng.randint(2, L)):
+            r = rng.random()
+            if r < 0.4:
+                ops.append(("dump", _rand_key(rng, shape, slice_p=0.2), 10 * q + j, rng.random() < 0.3))
+            elif r < 0.65:
+                ops.append(("get", _rand_key(rng, fs)))
+            elif r < 0.72:
+                ops.append(("reopen",))
+            elif r < 0.80:
+                ops.append(("has_index", rng.randrange(size)))
+            elif r < 0.88:
+                ops.append(("get_from_index", rng.randrange(size)))
+            else:
+                ops.append((rng.choice(("to_array", "mask", "mask_linear", "to_array_unsplat")),))
+        backend = "shared_memory_dict" if q % 9 == 0 else BACKENDS[q % 2]
+        yield {"backend": backend, "shape": shape, "internal": internal, "mask": mask, "ops": ops}
+
+
+def _check_class(case):
+    import shutil
+    import tempfile
+    from pipefunc.map._storage_array._base import storage_registry
+    from specs.storage_ref import MASKED, RefArray, norm
+    cls = storage_registry[case["backend"]]
+    shape, internal, mask = case["shape"], case["internal"], case["mask"]
+    top = tempfile.mkdtemp(prefix="vf_c07_")
+    folder = top + "/arr"  # created by the backend itself
+    bad = []
+
+    def make():
+        return cls(folder, shape, internal or None, mask if internal else None)
+    try:
+        arr = make()
+        ref = RefArray(shape, internal, mask)
+        for step, op in enumerate(case["ops"]):
+            kind = op[0]
+            if kind == "reopen":
+                arr.persist()
+                arr = make()
+                continue
+
+            def run(target, is_ref):
+                if kind == "dump":
+                    v = _value(op[2], internal, as_list=len(op) > 3 and op[3])
+                    return target.dump(op[1], v)
+                if kind == "get":
+                    return target.getitem(op[1]) if is_ref else norm(target[op[1]])
+                if kind == "to_array":
+                    return target.to_array() if is_ref else norm(target.to_array())
+                if kind == "to_array_unsplat":
+                    return target.to_array_unsplatted() if is_ref else norm(target.to_array(splat_internal=False))
+                if kind == "mask":
+                    return target.mask() if is_ref else norm(target.mask.data)
+                if kind == "mask_linear":
+                    return target.mask_linear() if is_ref else [bool(x) for x in target.mask_linear()]
+                if kind == "has_index":
+                    return bool(target.has_index(op[1]))
+                if kind == "get_from_index":
+                    if is_ref and not target.has_index(op[1]):
+                        return "<unspecified>"
+                    return target.get_from_index(op[1]) if is_ref else norm(target.get_from_index(op[1]))
+                raise AssertionError(kind)
+            try:
+                want = ("ok", run(ref, True))
+            except IndexError:
+                want = ("IndexError", None)
+            if want == ("ok", "<unspecified>"):
+                continue  # reading an element that was never written through its linear index: not specified
+            try:
+                got = ("ok", run(arr, False))
+            except Exception as e:  # noqa: BLE001
+                got = (type(e).__name__, str(e)[:80])
+            if want[0] != got[0]:
+                bad.append(f"{kind}: step {step} {op[1:2]}: backend -> {got[0]} {str(got[1])[:60]}, masked array -> {want[0]}")
+                break
+            if want[0] == "ok" and kind != "dump" and want[1] != got[1]:
+                bad.append(f"{kind}: step {step} {op[1:2]}: backend gives {str(got[1])[:120]}, masked array gives {str(want[1])[:120]}")
+                break
+        if not bad:
+            # final observation of the whole state through every read operation
+            present = [i for i, m in enumerate(ref.mask_linear()) if not m]
+            obs = [("to_array", lambda: norm(arr.to_array()), ref.to_array()),
+                   ("mask", lambda: norm(arr.mask.data), ref.mask()),
+                   ("mask_linear", lambda: [bool(x) for x in arr.mask_linear()], ref.mask_linear()),
+                   ("has_index", lambda: [bool(arr.has_index(i)) for i in range(len(ref.mask_linear()))],
+                    [not m for m in ref.mask_linear()]),
+                   ("get_from_index", lambda: [norm(arr.get_from_index(i)) for i in present],
+                    [ref.get_from_index(i) for i in present])]
+            for name, get, want in obs:
+                try:
+                    got = get()
+                except Exception as e:  # noqa: BLE001  (the masked array answers all of these without an error)
+                    bad.append(f"final-{name}: backend raised {type(e).__name__}: {str(e)[:80]}")
+                    continue
+                if got != want:
+                    bad.append(f"final-{name}: backend gives {str(got)[:120]}, masked array gives {str(want)[:120]}")
+        return bad
+    finally:
+        shutil.rmtree(top, ignore_errors=True)
+
+
+def _describe_class(case):
+    return {**{k: case[k] for k in ("backend", "shape", "internal", "mask")},
+            "ops": [[repr(x) for x in op] for op in case["ops"]]}
+
+
 def bounded_checks():
-    return []
+    from vf.bounded import Check
+    return [("backend-vs-masked-array", Check(
+        "backend-vs-masked-array", _cases_class, _check_class,
+        "every backend x (every single dump key then every read key on tiny shapes; random operation sequences of dump/"
+        "getitem (int, negative, slice, out-of-range, wrong-rank keys)/to_array/mask/mask_linear/has_index/"
+        "get_from_index/persist-and-reopen over all external/internal interleavings of rank<=3, sizes 1..3); distinct = "
+        "distinct (backend, configuration, sequence); non-trivial = at least one dump precedes a read",
+        describe=_describe_class, key=lambda c: repr(_describe_class(c)), shards=8,
+        nontrivial=lambda c: any(o[0] == "dump" for o in c["ops"])))]
